@@ -94,14 +94,24 @@ def session_episode(rng, chain, n=None, limit=None, ae=None):
         rest = line("X", method, a, "-", reqlen, "cl", ops).split(" ", 2)[2]
         ep.append("rw @ " + rest)
         ep.append("rw %s %s" % (chain, rest))
+    ep.append("rws -")
     return ep
 
 
 def session_oracle(ep, outs):
+    if ep and ep[0] == "# session-batch":
+        # all exchanges through the used instance first, then each of them through a fresh one
+        lines = [l for l in ep if l and not l.startswith("#")]
+        used = [(l, o) for l, o in zip(lines, outs) if l.startswith("rw @ ")]
+        fresh = [(l, o) for l, o in zip(lines, outs) if l.startswith("rw ") and not l.startswith("rw @ ")]
+        return ["the same exchange through a used plugin instance and through a fresh one differ: used=%s fresh=%s (%s)" % (a[1][:160], b[1][:160], a[0][:120])
+                for a, b in zip(used, fresh) if a[1] != b[1]]
     if not ep or ep[0] != "# session":
         return None
     lines = [l for l in ep if l and not l.startswith("#")]
     fails = []
+    if lines and lines[-1] == "rws -":
+        lines = lines[:-1]
     for i in range(1, len(lines) - 1, 2):
         if i + 1 >= len(outs):
             break
